@@ -224,6 +224,7 @@ impl Source for DesignSpaceIrSource {
         let mut glyphs = HashMap::<GlyphName, HashMap<PathBuf, Vec<DesignLocation>>>::new();
 
         let (default_master_idx, _) = default_master(&designspace)?;
+        let axes = to_ir_axes(&designspace.axes)?;
         let mut sources_indices_default_first = (0..designspace.sources.len()).collect::<Vec<_>>();
         sources_indices_default_first.swap(0, default_master_idx);
         let mut default_master_lib = None;
@@ -244,6 +245,26 @@ impl Source for DesignSpaceIrSource {
             }
 
             let location = to_design_location(&axis_tags_by_name, &source.location);
+            // like fontTools (varLib.load_designspace) reject sources beyond the ends
+            // of an axis, they would normalize to outside [-1, 1]
+            for (tag, pos) in location.iter() {
+                let Some(axis) = axes.get(tag) else { continue };
+                let min = axis.min.to_design(&axis.converter);
+                let max = axis.max.to_design(&axis.converter);
+                if *pos < min || *pos > max {
+                    return Err(Error::InvalidEntry(
+                        "source location",
+                        format!(
+                            "'{}' is at {} on axis '{}', outside the axis range {}..{}",
+                            source.filename,
+                            pos.to_f64(),
+                            axis.name,
+                            min.to_f64(),
+                            max.to_f64()
+                        ),
+                    ));
+                }
+            }
             for (glyph_name, glif_file) in glif_files(&ufo_dir, &mut layer_cache, source)? {
                 if !glif_file.exists() {
                     return Err(BadSource::new(glif_file, BadSourceKind::ExpectedFile).into());
@@ -3149,6 +3170,28 @@ mod tests {
         );
 
         assert!(super::parse_meta_table_values(&plist::Value::Dictionary(plist)).is_none())
+    }
+
+    #[test]
+    fn source_outside_axis_range_is_an_error() {
+        // the bold master sits at 700; end the axis before that
+        let fixture_dir = testdata_dir().canonicalize().unwrap();
+        let designspace = std::fs::read_to_string(fixture_dir.join("wght_var.designspace"))
+            .unwrap()
+            .replace("maximum=\"700\"", "maximum=\"650\"")
+            .replace(
+                "filename=\"WghtVar-",
+                &format!("filename=\"{}/WghtVar-", fixture_dir.display()),
+            );
+        let tmp = tempfile::tempdir().unwrap();
+        let tmp_designspace = tmp.path().join("wght_var.designspace");
+        std::fs::write(&tmp_designspace, designspace).unwrap();
+
+        let result = DesignSpaceIrSource::new(&tmp_designspace);
+        assert!(matches!(
+            result,
+            Err(Error::InvalidEntry("source location", msg)) if msg.contains("WghtVar-Bold.ufo")
+        ));
     }
 
     fn fixed_pitch_of(name: &str) -> Option<bool> {
